@@ -18,7 +18,7 @@ RULES = {
     "R1": "chunk protocol (Transmission.get_chunks): the default chunk size is an int literal <= 4096 and a multiple of 4 and no call site "
           "overrides it; the generator uses one-chunk look-ahead: the first yield carries the control data and m=bool(<look-ahead>), every yield inside "
           "`while <look-ahead>` carries the literal m=1, the yield after the loop carries m=0 and is guarded by the pending chunk; every yield is a "
-          "KITTY_TRANSMISSION",
+          "KITTY_TRANSMISSION; decided by exploring the finite abstract state space of the generator (tiv.protocol) for any loop shape, idiom rules as fallback; a loop over get_chunks() writes the chunk and nothing else",
     "R2": "mode/format table: every PIL mode _get_render_data can return ({RGB, RGBA}) is an attribute of kitty's class `f` with value "
           "8*len(mode); kitty computes bytes per pixel as format // 8, iterm2 as len(img.mode)",
     "R3": "control-key provenance: s<-pixel width, v<-pixel height (WHOLE) or height // r_height (LINES), c<-rendered width, r<-rendered height "
